@@ -1,6 +1,6 @@
 \* simulation of the manager model: EdgeOut prints every successor of every visited state; the behaviours
 \* are the material for the replay on the real Manager (checks/C17.py)
-SPECIFICATION Spec
+SPECIFICATION SpecNoWait
 CONSTANTS
   Peers = {"p1"}
   Chain <- Chain2
@@ -9,9 +9,12 @@ CONSTANTS
   MsgHeights = {0, 12}
   StoredPools = 10
   MaxReqs = 1
+  MaxWaiters = 0
+  Expiry = TRUE
   EnableBlackListing = TRUE
   FilterOnPromote = TRUE
   CheckOnHandout = TRUE
+  CheckOnWake = TRUE
 VIEW view
 ACTION_CONSTRAINT EdgeOut
 
